@@ -15,6 +15,7 @@ import (
 	"strings"
 
 	"github.com/martian-lang/martian/martian/syntax"
+	"github.com/martian-lang/martian/martian/syntax/graph"
 )
 
 type detCase struct {
@@ -32,6 +33,7 @@ type artefacts struct {
 	Retains  string
 	Strict   string // messages at the strictest enforcement level, stage code looked up
 	FixInc   string // mro format --includes: text and messages with the include list repaired
+	Dot      string // the call graph rendered for graphviz (mro graph --dot, mro check --dot)
 }
 
 func digest(s string) string {
@@ -89,6 +91,13 @@ func produceWith(dir string, c *detCase, use *syntax.Parser) artefacts {
 	}
 	if ast != nil && ast.Call != nil {
 		g, err := ast.MakeCallGraph("ID.", ast.Call)
+		if pg, ok := g.(*syntax.CallGraphPipeline); ok && err == nil {
+			var sb strings.Builder
+			if err := graph.RenderDot(pg, &sb, "", "  "); err != nil {
+				sb.WriteString("\nERR " + err.Error())
+			}
+			a.Dot = strings.ReplaceAll(sb.String(), dir, "$DIR")
+		}
 		if err != nil {
 			a.Graph = "ERR " + err.Error()
 		} else if b, err := json.Marshal(g); err != nil {
@@ -181,7 +190,8 @@ func Run(args []string) int {
 			for _, x := range [][3]string{{"formatted text", first.Format, a.Format}, {"combined source", first.Combined, a.Combined},
 				{"error messages", first.Error, a.Error}, {"call graph", first.Graph, a.Graph}, {"retain order", first.Retains, a.Retains},
 				{"messages at the strictest level with stage code looked up", first.Strict, a.Strict},
-				{"formatted text and messages with the include list repaired", first.FixInc, a.FixInc}} {
+				{"formatted text and messages with the include list repaired", first.FixInc, a.FixInc},
+				{"call graph rendered for graphviz", first.Dot, a.Dot}} {
 				if x[1] != x[2] {
 					viols = append(viols, Violation{c.Id, "differs-between-repetitions: " + x[0], diffAt(x[1], x[2]), c.Files[c.Top]})
 				}
@@ -204,7 +214,7 @@ func Run(args []string) int {
 			}
 		}
 		digests[c.Id] = map[string]string{"format": digest(first.Format), "combined": digest(first.Combined),
-			"error": digest(first.Error), "graph": digest(first.Graph), "retains": digest(first.Retains), "strict": digest(first.Strict), "fixinc": digest(first.FixInc),
+			"error": digest(first.Error), "graph": digest(first.Graph), "retains": digest(first.Retains), "strict": digest(first.Strict), "fixinc": digest(first.FixInc), "dot": digest(first.Dot),
 			"error_text": first.Error}
 	}
 	// one violation per (case, kind)
